@@ -329,13 +329,18 @@ class C04(Prop):
 PROP = C04()
 
 MANIFEST = dict(
-    technique="Lean 4 proof over an executable model of the treeinfo writer/reader on INI documents and of the discinfo line format "
-              "(induction over the variant forest, get/set algebra of the document); byte-exact model of SortedConfigParser.write; "
-              "differential correspondence on bytes and on every public fact; direct round-trip oracle on the real library",
-    text="C04_tree_readback: for every tree the model writer accepts, the reader returns the documented normalisation of the tree "
-         "(forests of any depth and width, any number of platforms/images/checksums); C04_tree_fixpoint: on a normal tree the cycle is "
-         "the identity, hence the second dump equals the first; C04_disc_readback for discinfo lines.",
-    note="Hypotheses kept visible: top-level variants filed under their UID (F8), integer timestamp exactly representable as a double "
-         "(F17), UIDs and platforms free of ',' and unique, no top-level addon, no platform named '<x>-<arch>', checksum type/value free "
-         "of ':'. The text reader is an assumption validated per case.",
+    technique="Lean 4 proof over an executable model of the treeinfo writer/reader on INI documents and of the discinfo line format: "
+              "lookup-form specification of the written document (induction over the variant forest), the assembled current-format reader "
+              "proved against any view of that specification, text layer through the proved parse/render model of configparser; byte-exact "
+              "differential correspondence and a direct round-trip oracle on the real library; reader/writer text models compared with "
+              "CPython on random texts in every run",
+    text="C04_tree_readback: serialize t = ok d -> deserialize d = ok (norm t) for forests of any depth and width, every child type, any "
+         "number of platforms/images/checksums; C04_tree_fixpoint / C04_tree_bytes: on a normal-form tree the cycle is the identity and the "
+         "second dumps is byte-identical; C04_tree_text: loads(dumps t) = norm t through the text (comment-named ; WARNING options dropped by "
+         "the reader: proved); C04_disc_readback: loads(dumps x) = x on the text, decimal and line joins proved.",
+    note="Hypotheses (all decidable, each with a witness or justification): integer timestamp exact as a double (F17), UIDs/platforms free "
+         "of ',' and UIDs unique, no top-level addon (F24), no platform '<x>-<arch>' (F25), checksum type/value free of ':', dict keys "
+         "distinct, the normal form passes the reader's validators (derived for normal-form trees), representability of the written document "
+         "(Boolean criterion proved sufficient). F8 (top-level filed under id) is inside norm: readback holds, fixpoint excludes it. "
+         "Independence of the bytes from dict insertion order is C08.",
     ref="7/C04")
